@@ -4,7 +4,7 @@ Decided: overriding signatures accept xarray's positional parameters in order (F
 every overridden funnel (_replace, _copy, _construct_dataarray, __getitem__, to_array, to_dataset, _calculate_binary_op) attaches the grid to the object it returns on every path, under no other condition than the result's class;
 every construction of UxDataArray/UxDataset inside uxarray passes uxgrid= (named exceptions: the grid-less classmethods); deep copies obtain an independent grid; isel routes grid dimensions through the sliced grid;
 where uxarray relabels grid dimensions without moving data (get_dual) the relabelling is by name through an involution; and (funnel coverage) the methods of the installed xarray.DataArray whose result is
-built by apply_ufunc - which constructs DataArray literally - are overridden or recorded as findings."""
+built by apply_ufunc - which constructs DataArray literally - are overridden or recorded as findings. Duplicate-node search (the node count of merged grids): equality between neighbours of a sorted order is tested only on fields the sort key contains (SORT/partial-key-adjacency, contradiction rule over the whole package)."""
 
 import ast
 import glob
@@ -121,6 +121,8 @@ def check(run):
     _constructions(run, P)
     _isel(run, P)
     _get_dual_dims(run, P)
+    from ..rules import idxlint
+    idxlint.check_sort_adjacency(run, P, ("uxarray/",))
     R = dataflow(P, run.tier)
     emit(run, R, {"ALIAS/internal-ds-shared"}, files=["uxarray/grid/grid.py"])
     _deep_copy(run, P)
